@@ -24,6 +24,9 @@ type vC02Step struct {
 	T string `json:"t"` // pin | unpin | hold | release | age
 	C int    `json:"c,omitempty"`
 	V int    `json:"v,omitempty"`
+	// Bad (pin only): the pin cannot be serialised (its name is not valid UTF-8, which the REST API lets through as
+	// ?name=%FF): api.Pin.ProtoMarshal fails, so dsstate.Add can never store it
+	Bad bool `json:"bad,omitempty"`
 }
 
 type vC02BCase struct {
@@ -42,8 +45,8 @@ type vC02BCase struct {
 	SlackMs int   `json:"slack_ms,omitempty"`
 	K       int   `json:"k,omitempty"`
 	UnpinAt []int `json:"unpin_at,omitempty"`
-	// never generated; only from a given input (a probe): 1-based indices of the element queries of the crdt set
-	// (issued by set.Rmv and InSet) that fail. The model has no such failure: the case is reported only if the code panics.
+	// 1-based indices of the element queries of the crdt set (issued by set.Rmv, i.e. by the worker's Rm) that fail: that
+	// Rm returns an error (TAdd false in the trace). Batching cases only.
 	FailQuery []int `json:"fail_query,omitempty"`
 }
 
@@ -63,6 +66,8 @@ func vc02GenOpsL(r *vRand, n int, hot int, last []int) []vC02Step {
 		case last[c] >= 0 && r.chance(22): // unpin immediately followed by the identical pin
 			out = append(out, vC02Step{T: "unpin", C: c}, vC02Step{T: "pin", C: c, V: last[c]})
 			i++
+		case r.chance(7): // a pin that cannot be serialised
+			out = append(out, vC02Step{T: "pin", C: c, V: r.intn(vc02NVariants), Bad: true})
 		case r.chance(65):
 			v := r.intn(vc02NVariants)
 			if last[c] >= 0 && r.chance(35) {
@@ -174,6 +179,13 @@ func vC02BGen(r *vRand) (vC02BCase, string) {
 		if len(c.Fail) > 0 {
 			c.Steps = append(c.Steps, vC02Step{T: "age"}, vC02Step{T: "age"})
 		}
+		if r.chance(25) {
+			c.FailQuery = []int{r.rng(1, 2)}
+			if r.chance(60) { // the very first Rm fails: the age timer runs for a batch that holds nothing
+				c.FailQuery = []int{1}
+				c.Steps = append([]vC02Step{{T: "unpin", C: hot}, {T: "age"}}, c.Steps...)
+			}
+		}
 		return c, "age"
 	case x < 82: // both limits: batches closed by size and by age, failures at either
 		c := vC02BCase{Size: r.rng(2, 4), AgeMs: r.rng(20, 45), Qcap: 10, Fail: vc02GenFails(r, 6)}
@@ -182,6 +194,9 @@ func vC02BGen(r *vRand) (vC02BCase, string) {
 			if r.chance(60) {
 				c.Steps = append(c.Steps, vC02Step{T: "age"})
 			}
+		}
+		if r.chance(20) { // a query of the crdt set (set.Rmv, reached by the worker's Rm) fails: the Rm returns an error
+			c.FailQuery = []int{r.rng(1, 3)}
 		}
 		fin := vC02Step{T: "pin", C: hot, V: r.intn(vc02NVariants)}
 		if last[hot] >= 0 && r.chance(50) { // the CID is committed with this very pin: unpin + identical pin in one batch
@@ -211,6 +226,7 @@ func vC02BGen(r *vRand) (vC02BCase, string) {
 func vC02BBoundary(i int) (vC02BCase, string) {
 	pin := func(c, v int) vC02Step { return vC02Step{T: "pin", C: c, V: v} }
 	unpin := func(c int) vC02Step { return vC02Step{T: "unpin", C: c} }
+	bad := func(c, v int) vC02Step { return vC02Step{T: "pin", C: c, V: v, Bad: true} }
 	age := vC02Step{T: "age"}
 	cases := []vC02BCase{
 		// age-limit commit fails, batch then reaches the size limit, one more operation (S2 shape)
@@ -250,6 +266,17 @@ func vC02BBoundary(i int) (vC02BCase, string) {
 		{Size: 10, AgeMs: 30, Qcap: 10, Steps: []vC02Step{pin(0, 1), age, pin(0, 2), pin(0, 1), age}},
 		{Size: 10, AgeMs: 30, Qcap: 10, Steps: []vC02Step{pin(0, 1), pin(1, 3), age, pin(1, 3), pin(0, 1), pin(2, 1), age}},
 		{Size: 0, AgeMs: 0, Qcap: 10, Steps: []vC02Step{pin(0, 1), unpin(0), pin(0, 1), pin(0, 1)}},
+		// a pin that cannot be serialised: alone in a batch, first in a batch, in the middle of a batch (closed by age and
+		// by size), twice in a row, without batching
+		{Size: 10, AgeMs: 30, Qcap: 10, Steps: []vC02Step{bad(0, 1), age, pin(1, 2), age}},
+		{Size: 10, AgeMs: 30, Qcap: 10, Steps: []vC02Step{bad(0, 1), pin(1, 2), unpin(2), age, pin(0, 3), age}},
+		{Size: 10, AgeMs: 30, Qcap: 10, Steps: []vC02Step{pin(0, 1), bad(0, 2), pin(1, 2), age, unpin(0), age}},
+		{Size: 2, AgeMs: 3600000, Qcap: 10, Steps: []vC02Step{pin(0, 1), bad(1, 2), pin(1, 3), bad(2, 1), pin(2, 2), pin(0, 4)}},
+		{Size: 3, AgeMs: 30, Qcap: 10, Steps: []vC02Step{bad(0, 1), bad(1, 1), age, age, pin(2, 1), age}},
+		{Size: 0, AgeMs: 0, Qcap: 10, Steps: []vC02Step{pin(0, 1), bad(0, 2), bad(1, 2), pin(1, 3), unpin(0)}},
+		// the first Rm of a batch fails (datastore query error): the age timer is armed for an empty batch
+		{Size: 10, AgeMs: 30, Qcap: 10, FailQuery: []int{1}, Steps: []vC02Step{unpin(0), age, pin(1, 1), age}},
+		{Size: 10, AgeMs: 30, Qcap: 10, FailQuery: []int{2}, Steps: []vC02Step{pin(0, 1), unpin(0), age, unpin(0), age, age}},
 		// direct writes with failing commits
 		{Size: 0, AgeMs: 0, Qcap: 10, Fail: []int{1, 3}, Steps: []vC02Step{pin(0, 1), pin(0, 2), pin(1, 1), unpin(0), unpin(0)}},
 		{Size: 0, AgeMs: 0, Qcap: 10, Fail: []int{2, 4}, Steps: []vC02Step{pin(0, 1), pin(0, 2), pin(1, 1), unpin(0), unpin(0), unpin(1)}},
@@ -284,6 +311,9 @@ func (c *vC02BCase) sanitize() {
 	}
 	if c.AgeMs > 0 && c.AgeMs < 10 {
 		c.AgeMs = 10
+	}
+	if c.Size == 0 || c.AgeMs == 0 {
+		c.FailQuery = nil // without batching a failed query is an error returned by LogUnpin: not a case of this stream
 	}
 	if c.GapMs < 0 {
 		c.GapMs = 0
@@ -342,11 +372,15 @@ func vC02BRun(t *testing.T, c vC02BCase) (obs vC02BObs, ranks *vc02Ranks) {
 			p.ReplicationFactorMin, p.ReplicationFactorMax = -1, -1
 			return p, k
 		}
-		return vc02Pin(s.C, s.V), s.C
+		pn := vc02Pin(s.C, s.V)
+		if s.Bad {
+			pn.Name = "bad \xff\xfe name"
+		}
+		return pn, s.C
 	}
 	var vals [][]byte
 	for _, s := range c.Steps {
-		if s.T == "pin" {
+		if s.T == "pin" && !(s.Bad && !c.trickle()) {
 			pn, _ := mkPin(s)
 			vals = append(vals, vc02PinBytes(pn))
 		}
@@ -402,7 +436,10 @@ func vC02BRun(t *testing.T, c vC02BCase) (obs vC02BObs, ranks *vc02Ranks) {
 		case "pin", "unpin":
 			op := &vc02Op{Pin: s.T == "pin", C: s.C, V: s.V}
 			pin, _ := mkPin(s)
-			if op.Pin {
+			bad := op.Pin && s.Bad
+			if bad {
+				op.R = 0 // no bytes: the value 0 of the Coq term marks an operation that cannot be stored
+			} else if op.Pin {
 				op.R = ranks.of(vc02PinBytes(pin))
 			} else {
 				pin = api.PinCid(vc02Cid(s.C))
@@ -418,6 +455,12 @@ func vC02BRun(t *testing.T, c vC02BCase) (obs vC02BObs, ranks *vc02Ranks) {
 					return p.cc.LogUnpin(octx, pin)
 				})
 				kind := p.fds.takeLastFail()
+				if err != nil && kind == "" && bad {
+					// refused with an error, no datastore fault involved: the pin cannot be serialised
+					trace = append(trace, &vc02Ev{Kind: "reject", ID: id, Op: op, At: at, done: true})
+					id++
+					continue
+				}
 				if err != nil && kind == "" {
 					kind = "other:" + err.Error()
 				}
@@ -442,7 +485,11 @@ func vC02BRun(t *testing.T, c vC02BCase) (obs vC02BObs, ranks *vc02Ranks) {
 			ev.Ok = err == nil
 			ev.done = true
 			if err != nil && !errors.Is(err, ErrMaxQueueSizeReached) {
-				ev.Pres = "other:" + err.Error()
+				if bad {
+					ev.Kind = "reject" // LogPin refused the pin up front: it cannot be serialised
+				} else {
+					ev.Pres = "other:" + err.Error()
+				}
 			}
 			g.mu.Unlock()
 			id++
@@ -482,7 +529,7 @@ func vC02BRun(t *testing.T, c vC02BCase) (obs vC02BObs, ranks *vc02Ranks) {
 					markStuck()
 				}
 			}
-		case "wait": // never generated (probe inputs): let the age timer of an empty batch expire; bounded
+		case "wait": // not generated (given inputs only): let the age timer of an empty batch expire; bounded
 			if batching && age < time.Minute {
 				d := 3 * age
 				if d > 500*time.Millisecond {
@@ -497,6 +544,19 @@ func vC02BRun(t *testing.T, c vC02BCase) (obs vC02BObs, ranks *vc02Ranks) {
 				cur, n0 := g.cur, g.nCommit
 				g.mu.Unlock()
 				if cur == 0 {
+					// nothing to commit. If an Add/Rm failed since the last commit the age timer is armed all the same:
+					// negative expectation (no commit of an empty batch), short bounded wait
+					g.mu.Lock()
+					armedEmpty := g.failedSinceCommit
+					g.failedSinceCommit = false
+					g.mu.Unlock()
+					if armedEmpty {
+						d := 3 * age
+						if d > 500*time.Millisecond {
+							d = 500 * time.Millisecond
+						}
+						time.Sleep(d)
+					}
 					continue
 				}
 				// positive expectation with a margin of 4 x the age plus a generous constant for a loaded machine
@@ -713,6 +773,9 @@ func vC02BTrickleRun(c vC02BCase, p *vc02Peer, ranks *vc02Ranks, since func() in
 // final pinset, tracker calls, datastore commit log
 func vC02BFinish(p *vc02Peer, ranks *vc02Ranks, obsp *vC02BObs) {
 	ctx := context.Background()
+	p.fds.mu.Lock()
+	p.fds.failQ = nil // the script is over: reading the final state is not part of it
+	p.fds.mu.Unlock()
 	obs := *obsp
 	defer func() { *obsp = obs }()
 	trace := obs.Trace
@@ -792,6 +855,8 @@ func vC02BTerm(c vC02BCase, obs vC02BObs) string {
 		switch e.Kind {
 		case "enq":
 			ev = fmt.Sprintf("TEnq %d %s %s", e.ID, vc02CoqOp(e.Op), cqBool(e.Ok))
+		case "reject":
+			ev = fmt.Sprintf("TReject %d %s", e.ID, vc02CoqOp(e.Op))
 		case "add":
 			ev = fmt.Sprintf("TAdd %d %s", e.ID, cqBool(e.Ok))
 		case "commit":
@@ -946,6 +1011,12 @@ func TestVerifC02Batch(t *testing.T) {
 				out.count("commit_ok")
 			case e.Kind == "enq" && !e.Ok:
 				out.count("refused")
+			case e.Kind == "reject":
+				out.count("rejected_unserialisable")
+			case e.Kind == "enq" && e.Op != nil && e.Op.Pin && e.Op.R == 0:
+				out.count("accepted_unserialisable")
+			case e.Kind == "add" && !e.Ok:
+				out.count("add_failed")
 			case e.Kind == "direct" && !e.Ok:
 				out.count("direct_fail_" + e.Pres)
 			case e.Kind == "stuck" || e.Kind == "noage":
